@@ -167,10 +167,6 @@ def opaqueDetailOps (what : Str) (d : Det) (hid : List Enc) : List POp :=
    | some u => [.safe [.lit (nl :: b!"payload type: "), .lit u]]
    | none => [])
 
-/-- one context tag as redact.Sprintf("%s%s%v", Safe(k), eq, v) builds it (string values) -/
-def tagRStr (kv : Str × Str) : RStr :=
-  assemble [.lit kv.1, .lit (if kv.1.length > 1 then b!"=" else []), .arg kv.2]
-
 /-- SafeFormatError / FormatError of a single-cause wrapper: (operations, elide the inner
     messages (the method returned nil), is the buffer redactable).  `hidV` = the verbose
     redactable rendering of the hidden error, for the types that embed one. -/
@@ -187,10 +183,10 @@ def wrapScript (k : WrapKind) (detail : Bool) : List POp × Bool × Bool :=
           (if dt ≠ [] then [POp.safe [.lit (if url ≠ [] then nlS else []), lit' "detail: ", .lit dt]] else [])), false, true)
   | .withTelemetry keys => (det [.safe [lit' "keys: [", .lit (joinWith sp keys), lit' "]"]], false, true)
   | .withDomain d => (det [.safe [.lit d]], false, true)
-  | .withContext tags _ =>
+  | .withContext tags kinds _ =>
     (det ([POp.safe [lit' "tags: ["]] ++
       (tags.zipIdx.flatMap (fun (x : (Str × Str) × Nat) =>
-        (if x.2 > 0 then [POp.safe [lit' ","]] else []) ++ [POp.safe [.pre (tagRStr x.1)]])) ++
+        (if x.2 > 0 then [POp.safe [lit' ","]] else []) ++ [POp.safe [.pre (tagRStr x.1 (kinds.getD x.2 0))]])) ++
       [POp.safe [lit' "]"]]), false, true)
   | .withAssertionFailure => (det [.safe [lit' "assertion failure"]], false, true)
   | .withSafeDetails l =>
@@ -440,11 +436,9 @@ def ents (red detail : Bool) : Err → (outer withDepth : Bool) → (depth : Nat
     | .opaqueLeafCauses msg d hid =>
       (markElided sub.1 ++ [collect (runOps detail ((leafScript (.opaqueLeaf msg d hid) detail).getD [])) true red wd depth e.ty.tstr], sub.2)
     | _ =>
+      -- the special cases apply to leaves only (cause == nil && len(causes) == 0)
       let t := multiText k (errTextL cs)
-      if isAnyB Full e (specialSentinels.map some) then
-        (markElided sub.1 ++ [collect (runOps detail [.safe [.lit t]]) true red wd depth e.ty.tstr], sub.2)
-      else
-        (markElided sub.1 ++ [collect (runOps detail (if t ≠ [] then [.plain t] else [])) false red wd depth e.ty.tstr], sub.2)
+      (markElided sub.1 ++ [collect (runOps detail (if t ≠ [] then [.plain t] else [])) false red wd depth e.ty.tstr], sub.2)
 /-- the branches of a multi-cause error, left to right, sharing `lastStack` -/
 def entsL (red detail : Bool) : List Err → (depth : Nat) → Stack → List Entry × Stack
   | [], _, ls => ([], ls)
@@ -456,6 +450,11 @@ end
 
 /-- FormatError / FormatRedactableError with verb v / s / +v on a whole error -/
 def render (red detail : Bool) (e : Err) : Str := finish red detail (ents red detail e true false 0 []).1
+
+/-- `redact.Sprintf("masked error: %+v", e).Redact().StripMarkers()`: what a barrier appends to
+    its safe details -/
+def vfE (e : Err) : Str :=
+  stripMarkers (redactS (assemble [.lit (b!"masked error: "), .pre (render true true e)]))
 
 /-- the `%!verb(type)` notation of an unsupported verb -/
 def badVerb (verb : UInt8) (e : Err) : Str := b!"%!" ++ [verb] ++ b!"(" ++ e.ty.tstr ++ b!")"
